@@ -351,6 +351,14 @@ generate (uint64_t seed, int tier, const char *property, scenario_t *sc)
 	    if (rng_chance (&r, 3, 4)) { sc_addv (sc, MOP_SET_CLIENT_CLIP, 5, a); sc_addv (sc, MOP_SET_SOURCE_CLIPPING, 5, a); }
 	}
     }
+    /* one shared source in three carries an alpha map, itself one of the shared images: using such a
+     * source must not touch either of them any more than using a plain one does */
+    for (k = SH0; k < M_NIMG; k++)
+	if (g.s[k].kind == MOP_BITS && g.s[k].bpp <= 32 && rng_chance (&r, 1, 3))
+	{
+	    int k2 = SH0 + (int)rng_n (&r, M_NIMG - SH0);
+	    if (k2 != k && g.s[k2].kind == MOP_BITS && g.s[k2].bpp <= 32 && g.s[k2].has_alpha < 0 && g.s[k].alpha_of == 0) gen_alpha_map (&g, k, k2);
+	}
     /* the first use, on the main thread, before any worker exists */
     for (k = SH0; k < M_NIMG; k++) gen_composite (&g, 1, k, -1, 0);
     /* regions of the main thread: operands (never destinations) of the workers' region algebra;
@@ -384,6 +392,13 @@ generate (uint64_t seed, int tier, const char *property, scenario_t *sc)
 	/* a destination clip of several boxes: the composite region then has more boxes than a
 	 * shared source's clip, which is when the two are combined the other way round */
 	if (rng_chance (&r, 1, 3)) gen_clip (&p, 0, 0);
+	if (rng_chance (&r, 1, 3))
+	{
+	    /* dithering on the private destination (it happens when the wide pipeline stores into a narrow format) */
+	    int64_t d[5] = { 0, 0, 0, 0, 1 + (int64_t)rng_n (&r, 5) }, o[6] = { 0, 0, 0, 0, rng_range (&r, -9, 70), rng_range (&r, -9, 70) };
+	    sc_addv (sc, MOP_SET_DITHER, 5, d);
+	    if (rng_chance (&r, 1, 2)) sc_addv (sc, MOP_SET_DITHER_OFFSET, 6, o);
+	}
 	gen_source (&p, 2, FC_ANY, 24);
 	for (q = 0; q < n_ops; q++)
 	{
